@@ -42,7 +42,7 @@ func isErrCheck(s ast.Stmt) bool {
 	return true
 }
 
-func callName(c *ast.CallExpr) string {
+func rotCallName(c *ast.CallExpr) string {
 	switch f := c.Fun.(type) {
 	case *ast.Ident:
 		return f.Name
@@ -104,7 +104,7 @@ func shapeOf(fd *ast.FuncDecl) ([]string, error) {
 	}
 	qFmt, qArgs := "", []string(nil) // last `q := fmt.Sprintf(...)`
 	sprintf := func(c *ast.CallExpr) (string, []string, bool) {
-		if callName(c) != "fmt.Sprintf" || len(c.Args) == 0 {
+		if rotCallName(c) != "fmt.Sprintf" || len(c.Args) == 0 {
 			return "", nil, false
 		}
 		f, ok := strLit(c.Args[0])
@@ -140,7 +140,7 @@ func shapeOf(fd *ast.FuncDecl) ([]string, error) {
 	}
 	var walk func(list []ast.Stmt, loopVar string)
 	effect := func(c *ast.CallExpr, inReturn bool, loopVar string) (string, bool) {
-		switch callName(c) {
+		switch rotCallName(c) {
 		case "getSetting":
 			if len(c.Args) != 4 {
 				fail("getSetting with %d arguments", len(c.Args))
@@ -176,7 +176,7 @@ func shapeOf(fd *ast.FuncDecl) ([]string, error) {
 			}
 			return "exec:?" + exprStr(c.Args[1]), true
 		case "db.Query", "db.QueryRow", "db.Select", "db.PrepareBatch", "db.AsyncInsert":
-			return "other:" + callName(c), true
+			return "other:" + rotCallName(c), true
 		}
 		return "", false
 	}
@@ -197,10 +197,10 @@ func shapeOf(fd *ast.FuncDecl) ([]string, error) {
 							// the error of an effect must be looked at by the next statement
 							lhs := exprStr(s.Lhs[len(s.Lhs)-1])
 							if lhs != "err" {
-								fail("result of %s is assigned to %s, not err", callName(c), lhs)
+								fail("result of %s is assigned to %s, not err", rotCallName(c), lhs)
 							}
 							if i+1 >= len(list) {
-								fail("%s is not followed by an error check", callName(c))
+								fail("%s is not followed by an error check", rotCallName(c))
 								continue
 							}
 							if is, ok := list[i+1].(*ast.IfStmt); ok && strings.HasPrefix(exprStr(is.Cond), "err != nil ||") && len(is.Body.List) == 1 && exprStr(is.Body.List[0]) == "return err" && is.Else == nil {
@@ -209,7 +209,7 @@ func shapeOf(fd *ast.FuncDecl) ([]string, error) {
 							} else if isErrCheck(list[i+1]) {
 								i++
 							} else {
-								fail("%s is not followed by `if err != nil { return ... }`", callName(c))
+								fail("%s is not followed by `if err != nil { return ... }`", rotCallName(c))
 							}
 						}
 					}
@@ -233,7 +233,7 @@ func shapeOf(fd *ast.FuncDecl) ([]string, error) {
 			case *ast.ExprStmt:
 				if c, ok := s.X.(*ast.CallExpr); ok {
 					if _, ok := effect(c, false, loopVar); ok {
-						fail("result of %s is dropped", callName(c))
+						fail("result of %s is dropped", rotCallName(c))
 					}
 				}
 			case *ast.IfStmt:
@@ -362,7 +362,7 @@ func init() {
 					return "", fmt.Errorf("Rotate: closure %s has an unexpected body", lhs)
 				}
 				c, ok := ret.Results[0].(*ast.CallExpr)
-				if !ok || callName(c) != "fmt.Sprintf" || len(c.Args) != 3 || exprStr(c.Args[1]) != "column" || exprStr(c.Args[2]) != "dropTTLDays" {
+				if !ok || rotCallName(c) != "fmt.Sprintf" || len(c.Args) != 3 || exprStr(c.Args[1]) != "column" || exprStr(c.Args[2]) != "dropTTLDays" {
 					return "", fmt.Errorf("Rotate: closure %s is not Sprintf(format, column, dropTTLDays)", lhs)
 				}
 				fs, ok := strLit(c.Args[0])
@@ -371,10 +371,10 @@ func init() {
 				}
 				dropFmt[lhs] = fs
 			case *ast.CallExpr:
-				switch callName(r) {
+				switch rotCallName(r) {
 				case "storagePolicyUpdate", "rotateTables":
 					if lhs != "err" {
-						return "", fmt.Errorf("Rotate: result of %s assigned to %s", callName(r), lhs)
+						return "", fmt.Errorf("Rotate: result of %s assigned to %s", rotCallName(r), lhs)
 					}
 					if i+1 >= len(list) || !isErrCheck(list[i+1]) {
 						rotateNotes = append(rotateNotes, fmt.Sprintf("%s is not followed by `if err != nil { return err }`", exprStr(r)))
@@ -392,7 +392,7 @@ func init() {
 						}
 						return o, nil
 					}
-					if callName(r) == "storagePolicyUpdate" {
+					if rotCallName(r) == "storagePolicyUpdate" {
 						if len(r.Args) < 6 || exprStr(r.Args[0]) != "db" || exprStr(r.Args[1]) != "clusterName" || exprStr(r.Args[2]) != "distributed" || exprStr(r.Args[3]) != "storagePolicy" {
 							return "", fmt.Errorf("Rotate: unexpected storagePolicyUpdate call %s", exprStr(r))
 						}
@@ -421,9 +421,9 @@ func init() {
 						if !ok || len(dc.Args) != 1 {
 							return "", fmt.Errorf("Rotate: drop expression %s is not a call of a local closure", exprStr(r.Args[6]))
 						}
-						df, ok := dropFmt[callName(dc)]
+						df, ok := dropFmt[rotCallName(dc)]
 						if !ok || df != "%s + toIntervalDay(%d)" {
-							return "", fmt.Errorf("Rotate: drop expression closure %s has format %q", callName(dc), df)
+							return "", fmt.Errorf("Rotate: drop expression closure %s has format %q", rotCallName(dc), df)
 						}
 						if g.dropCol, ok = strLit(dc.Args[0]); !ok {
 							return "", fmt.Errorf("Rotate: drop column is not a literal in %s", exprStr(dc))
@@ -480,7 +480,7 @@ func init() {
 				switch x := s.(type) {
 				case *ast.AssignStmt:
 					if len(x.Lhs) == 1 && len(x.Rhs) == 1 && x.Tok == token.DEFINE {
-						if c, ok := x.Rhs[0].(*ast.CallExpr); ok && callName(c) == "fmt.Sprintf" {
+						if c, ok := x.Rhs[0].(*ast.CallExpr); ok && rotCallName(c) == "fmt.Sprintf" {
 							if fs, ok := strLit(c.Args[0]); ok {
 								var as []string
 								for _, a := range c.Args[1:] {
@@ -511,7 +511,7 @@ func init() {
 		keyFmt := func(fd *ast.FuncDecl) (string, error) {
 			res := ""
 			ast.Inspect(fd.Body, func(n ast.Node) bool {
-				if c, ok := n.(*ast.CallExpr); ok && callName(c) == "fmt.Sprintf" && len(c.Args) == 3 {
+				if c, ok := n.(*ast.CallExpr); ok && rotCallName(c) == "fmt.Sprintf" && len(c.Args) == 3 {
 					if fs, ok := strLit(c.Args[0]); ok && strings.Contains(fs, "type") {
 						res = fs + "|" + exprStr(c.Args[1]) + "," + exprStr(c.Args[2])
 					}
